@@ -174,6 +174,15 @@ func props() map[string]Prop {
 			},
 			Assume: []string{"the application is the test binary re-executed through an init hook; descendants are awaited by scanning /proc for a per-run id (20s watchdog => inconclusive)", "stale-token races are excluded, as in the property"},
 		},
+		{
+			ID: "C11", Level: "exploration",
+			Units: []Unit{
+				{Name: "uploader", Pkg: "internal/upload", Harness: "internal_upload", Run: "^TestVerifC11Uploader$", Instrument: uploadInstr, Timeout: 30 * time.Minute},
+				{Name: "server", Module: "godev", Pkg: "cmd/telemetrygodev", Harness: "godev_server", Run: "^TestVerifC11Server$", Timeout: 30 * time.Minute},
+				{Name: "viewer", Pkg: "cmd/gotelemetry/internal/view", Harness: "cmd_view", Run: "^TestVerifC11Viewer$", Timeout: 30 * time.Minute},
+			},
+			Assume: []string{"all rates are 1 and sampling is off, so that approval is isolated from sampling", "the three legs are chained through files written by the uploader leg in the same run"},
+		},
 	}
 	m := map[string]Prop{}
 	for _, p := range ps {
